@@ -138,6 +138,16 @@ CLAIMS["C16"] = claim("lean-model (footprint table) + harness race (Go race dete
     "Partial: the table is hand-written and tied to the code only by the detector, which sees only executions that happen; 'discipline implies DRF' is assumed.",
     "Lean 4 proof (decide +kernel over the footprint table) + race-detector correspondence", "DESIGN.md §6 C16")
 
+CLAIMS["C08"] = claim("lean-model (Linz checker, slot-heap model) + harness linz (free-running goroutines)",
+    "PARTIAL. Lean 4 theorems: the executable linearizability checker applied to every observed per-slot history is sound (an accepted "
+    "history has a real-time respecting witness order that replays on the proved backend model), and the only multi-section operation of "
+    "the sharded maps — Read: pointer fetch under the read lock, evaluation after unlock, against in-place expiry rewrites by ExpireAll — "
+    "takes effect at one instant for EVERY interleaving of other operations' lock sections (C08_read_linearizes, induction over the "
+    "interleaving). Implementation side: 2-8 free-running goroutines with random op mixes over plain and xxhash64-colliding keys on all "
+    "backends and strategies, every slot history judged by the Lean checker; concurrent Walk monitor; a directed cleanup/rewrite stress.",
+    "Partial: mutual exclusion of sync.RWMutex / linearizability of sync.Map / Go map iteration guarantees are assumed; schedules are sampled, not enumerated.",
+    "Lean 4 proof (checker soundness + induction over lock-section interleavings) + statistical correspondence", "DESIGN.md §6 C08")
+
 NOT_APPLICABLE = {}
-for _p in ["C08"]:
+for _p in []:
     NOT_APPLICABLE[_p] = "check under construction in this round (model slice or theorem not yet committed); will be claimed when its check exists"
